@@ -339,6 +339,19 @@ func c18Exec(op string) string {
 				notes = append(notes, "RESET PrependAttrWithHyphen(true) did not restore the hyphen prefix")
 			}
 		}
+		// the sequence codec round-trips under every key prefix, whatever was encoded under an
+		// earlier one (comment, processing instruction and directive included)
+		if cl.name == "SetGlobalKeyMapPrefix" {
+			doc := []byte(`<a x="1"><!--c--><?pi t?><!DOCTYPE d><b>1</b></a>`)
+			if ms, err := mxj.NewMapXmlSeq(doc); err == nil {
+				xs, xerr := ms.Xml()
+				want, _ := tokenStream(doc)
+				if got, ok := tokenStream(xs); xerr != nil || !ok || got != want {
+					notes = append(notes, fmt.Sprintf("KEYPREFIX after SetGlobalKeyMapPrefix(%v) the sequence codec no longer reproduces a document with a comment / instruction / directive: %s", cl.arg, clip(string(xs), 120)))
+				}
+			}
+		}
+		bystanders()
 		// what a sub-key argument means depends on the separator in force NOW, not on what it
 		// meant when the same argument was last used
 		if cl.name == "SetFieldSeparator" {
